@@ -868,7 +868,9 @@ func (s *frameSide) run(rng *vrng, oob, flood, mtuOps bool, res *frameResult, re
 			m := frameMtuValue(rng, sess)
 			if s.lastRefused != 0 && rng.chance(40) {
 				m = s.lastRefused // an application retrying the value it was refused (larger segments have drained meanwhile)
+				resMu.Lock()
 				res.Dist["setmtu-retry-of-refused"]++
+				resMu.Unlock()
 			}
 			if s.setMtu(m) {
 				s.lastRefused = 0
